@@ -172,6 +172,10 @@ pub fn run(ctx: &mut Ctx) {
         entries.push((k.iter().map(|&b| model::dna_code(b)).collect::<Vec<u8>>(), idx, Repr::OffsetOwned { pre, post: vec![3, 3] }));
     }
     let queries: Vec<Query> = (0..64u8).map(|p| Query { codes: model::pattern_codon(p).iter().map(|&b| model::dna_code(b)).collect(), pre: vec![1; (p % 33) as usize], how: 1 }).collect();
+    let mut queries = queries;
+    for (i, q) in [vec![], vec![0u8], vec![0, 1], vec![3, 2], vec![3, 2, 2, 0], vec![0, 0, 0, 0], vec![1, 1, 1, 3], vec![2, 0, 0, 0, 0]].into_iter().enumerate() {
+        queries.push(Query { codes: q, pre: vec![2; i * 5 % 33], how: (i % 3) as u8 });
+    }
     ctx.each("standard_code_as_custom_table", vec![Case { codec: CodecId::Dna, entries, queries, builds: 20 }], dispatch);
     ctx.require_class("ambiguous_amino");
     ctx.require_class("three_preimages");
